@@ -1,5 +1,232 @@
-From Verif Require Import Common.Base C12.Model C12.Proofs.
+(* C12/Properties.v — the clauses of property C12 as theorems over the model of confmap
+   (Model.v: merge of sources, expandValueRecursively, findURI, replaceUnescaped, escapeDollarSigns,
+   useExpandValue).  Every theorem quantifies over ALL default schemes, ALL provider functions
+   [retrieve : scheme -> opaque -> result] and all strings / token lists / source lists.
+   Vocabulary (defined in Proofs2/3/4.v):
+     ref_text n           the text "${n}"
+     no_ref_b s           no "${" in s has a "}" after it (no complete reference)
+     no_dd s              no "$$" in s
+     tok, flatten, sem    the token grammar (char | '}' | "$$" | lone '$' | "${name}"), its text, its meaning
+     wf                   well-formed token list whose references are resolvable to '$'-free text
+     anchored             the token list cannot shrink to one bare reference
+     inert                a value without '$' and without expandedValue nodes *)
+From Verif Require Import Common.Base C12.Model C12.Proofs1 C12.Proofs2 C12.Proofs3 C12.Proofs4 C12.Proofs5 C12.Proofs6.
+From Coq Require Import Ascii.
+
+(* ================= clause 1: recursive right-biased merge ================= *)
+
+Theorem merge_right_biased : forall k a b,
+  lookup k (merge_map a b) =
+  match lookup k b with
+  | Some y => match lookup k a with Some x => Some (merge_cv x y) | None => Some y end
+  | None => lookup k a
+  end.
+Proof. exact lookup_merge_map. Qed.
+Print Assumptions merge_right_biased.
+
+Theorem merge_maps_key_by_key : forall xm ym, merge_cv (CMap xm) (CMap ym) = CMap (merge_map xm ym).
+Proof. exact merge_cv_maps. Qed.
+Print Assumptions merge_maps_key_by_key.
+
+Theorem merge_replaces_scalars_and_lists : forall x y,
+  match x, y with CMap _, CMap _ => False | _, _ => True end -> merge_cv x y = y.
+Proof. exact merge_cv_replace. Qed.
+Print Assumptions merge_replaces_scalars_and_lists.
+
+Theorem merge_untouched_keys_survive : forall k a b,
+  lookup k b = None -> lookup k (merge_map a b) = lookup k a.
+Proof. exact untouched_l. Qed.
+Print Assumptions merge_untouched_keys_survive.
 
 Theorem merge_empty_r : forall m, merge_map m [] = m.
 Proof. exact merge_map_nil_r. Qed.
 Print Assumptions merge_empty_r.
+
+Theorem merge_empty_l : forall m, merge_map [] m = m.
+Proof. exact merge_map_nil_l. Qed.
+Print Assumptions merge_empty_l.
+
+Theorem empty_source_changes_nothing : forall acc rest,
+  merge_sources acc (CNil :: rest) = merge_sources acc rest /\
+  merge_sources acc (CMap [] :: rest) = merge_sources acc rest.
+Proof. exact empty_source_l. Qed.
+Print Assumptions empty_source_changes_nothing.
+
+Theorem resolve_sources_fold : forall ms acc,
+  merge_sources acc (map CMap ms) = Ok (fold_left merge_map ms acc).
+Proof. exact merge_sources_fold. Qed.
+Print Assumptions resolve_sources_fold.
+
+(* Resolve = merge all sources, then resolve the merged tree leaf by leaf *)
+Theorem resolve_is_merge_then_expand : forall def retrieve srcs,
+  resolve def retrieve srcs =
+  match merge_sources [] srcs with
+  | Err e => Err e
+  | Ok [] => Ok (CMap [])
+  | Ok ((_ :: _) as m) => resolve_node def retrieve (CMap m)
+  end.
+Proof. exact resolve_unfold_l. Qed.
+Print Assumptions resolve_is_merge_then_expand.
+
+Theorem resolve_tree_leafwise : forall def retrieve m m',
+  m <> [] ->
+  Forall2 (fun kv kv' => fst kv = fst kv' /\ resolve_node def retrieve (snd kv) = Ok (snd kv')) m m' ->
+  resolve_node def retrieve (CMap m) = Ok (CMap m').
+Proof. exact resolve_node_map_ok. Qed.
+Print Assumptions resolve_tree_leafwise.
+
+Theorem resolve_tree_error : forall def retrieve m k x e,
+  In (k, x) m -> resolve_node def retrieve x = Err e ->
+  exists e', resolve_node def retrieve (CMap m) = Err e' /\ incl e e'.
+Proof. exact resolve_node_map_err. Qed.
+Print Assumptions resolve_tree_error.
+
+(* on sources without any '$' the result of Resolve IS the right-biased merge *)
+Theorem resolve_reference_free_is_merge : forall def retrieve ms,
+  forallb inert_map ms = true ->
+  resolve def retrieve (map CMap ms) = Ok (CMap (fold_left merge_map ms [])).
+Proof. exact resolve_inert_is_merge. Qed.
+Print Assumptions resolve_reference_free_is_merge.
+
+(* the DESIGN planned merge_assoc; the merge of the code is NOT associative (a scalar in the middle
+   forgets the map on its left) — irrelevant for Resolve, which folds from the left *)
+Theorem merge_assoc_refuted : exists a b c,
+  merge_map (merge_map a b) c <> merge_map a (merge_map b c).
+Proof. exact merge_not_assoc_l. Qed.
+Print Assumptions merge_assoc_refuted.
+
+(* ================= clause 4: text without reference and without $$ is unchanged ================= *)
+
+Theorem plain_text_unchanged : forall def retrieve s,
+  no_ref_b s = true -> no_dd s = true -> resolve_string def retrieve s = Ok (CStr s).
+Proof. exact resolve_string_plain. Qed.
+Print Assumptions plain_text_unchanged.
+
+Theorem no_reference_only_unescaped : forall def retrieve s,
+  no_ref_b s = true -> resolve_string def retrieve s = Ok (CStr (unescape s)).
+Proof. exact resolve_string_no_ref. Qed.
+Print Assumptions no_reference_only_unescaped.
+
+(* ================= clause 3: $$ ================= *)
+
+(* a run of n '$' (not followed by another '$'): ceil(n/2) remain *)
+Theorem dollar_dollar : forall n rest,
+  match rest with c :: _ => is_dollar c = false | [] => True end ->
+  unescape (repeat cDollar n ++ rest) = repeat cDollar (Nat.div2 (S n)) ++ unescape rest.
+Proof. exact unescape_run. Qed.
+Print Assumptions dollar_dollar.
+
+(* ================= clause 2: references ================= *)
+
+(* CENTRAL: on every well-formed token string resolution is the token-by-token meaning:
+   char -> itself, "$$" -> "$", lone '$' -> "$", "${name}" -> the provider's text *)
+Theorem expansion_refines_tokens : forall def retrieve val ts,
+  wf def retrieve val ts -> anchored val ts -> nrefs ts < 1000 ->
+  resolve_string def retrieve (flatten ts) = Ok (CStr (sem val ts)).
+Proof. exact tokens_main. Qed.
+Print Assumptions expansion_refines_tokens.
+
+(* without the bound the statement is false: 1000 distinct resolvable references are refused *)
+Theorem expansion_refines_tokens_unbounded_refuted : exists def retrieve val ts,
+  wf def retrieve val ts /\ has_text ts = true /\ nrefs ts = 1000 /\
+  resolve_string def retrieve (flatten ts) = Err [ETooMany].
+Proof. exact many_refs_l. Qed.
+Print Assumptions expansion_refines_tokens_unbounded_refuted.
+
+(* an escaped reference "$${n}" is kept as the text "${n}" wherever it stands *)
+Theorem escaped_ref_kept : forall def retrieve val pre n post,
+  wf def retrieve val (pre ++ esc_ref n ++ post) -> nrefs (pre ++ esc_ref n ++ post) < 1000 ->
+  resolve_string def retrieve (flatten pre ++ cDollar :: ref_text n ++ flatten post)
+  = Ok (CStr (sem val pre ++ ref_text n ++ sem val post)).
+Proof. exact escaped_ref_kept_l. Qed.
+Print Assumptions escaped_ref_kept.
+
+(* a value that IS one reference to a non-string: typed value + original text *)
+Theorem whole_value_typed : forall def retrieve n ret o,
+  name_ok n = true -> ref_ok def n = true ->
+  expand_uri def retrieve (ref_text n) = Ok ret ->
+  scalar (r_raw ret) = true -> as_string ret = Some o -> no_ref_b o = true ->
+  exists v, resolve_string def retrieve (ref_text n) = Ok v /\
+            sanitize v = r_raw ret /\                       (* ToStringMap / non-string targets: typed *)
+            decode_string_field v = Some (unescape o).     (* string targets: the original text *)
+Proof. exact whole_value_typed_l. Qed.
+Print Assumptions whole_value_typed.
+
+Theorem whole_value_string : forall def retrieve n ret v o,
+  name_ok n = true -> ref_ok def n = true ->
+  expand_uri def retrieve (ref_text n) = Ok ret ->
+  r_raw ret = CStr v -> as_string ret = Some o -> no_ref_b v = true ->
+  resolve_string def retrieve (ref_text n) = Ok (CStr (unescape v)).
+Proof. exact resolve_whole_string. Qed.
+Print Assumptions whole_value_string.
+
+(* inside a longer string the provider's TEXT is spliced in (every unescaped occurrence), and the
+   result is expanded again by the same function: provider output is subject to the same rules *)
+Theorem embedded_uses_text : forall def retrieve s uri ret repl,
+  find_uri def s = Some uri -> uri <> s ->
+  expand_uri def retrieve uri = Ok ret -> as_string ret = Some repl ->
+  expand_string def retrieve s = Ok (CStr (replace_unescaped s uri repl), true).
+Proof. exact embedded_uses_text_l. Qed.
+Print Assumptions embedded_uses_text.
+
+Theorem provider_output_reexpanded : forall def retrieve f s uri ret repl,
+  find_uri def s = Some uri -> uri <> s ->
+  expand_uri def retrieve uri = Ok ret -> as_string ret = Some repl ->
+  expand_rec def retrieve (S f) (CStr s) = expand_rec def retrieve f (CStr (replace_unescaped s uri repl)).
+Proof. exact embedded_then_again. Qed.
+Print Assumptions provider_output_reexpanded.
+
+Theorem embedded_without_text_is_error : forall def retrieve s uri ret,
+  find_uri def s = Some uri -> uri <> s ->
+  expand_uri def retrieve uri = Ok ret -> as_string ret = None ->
+  resolve_string def retrieve s = Err [ENoString].
+Proof. exact embedded_without_text_refused. Qed.
+Print Assumptions embedded_without_text_is_error.
+
+(* which reference findURI picks in a token string: the first one, never an escaped one *)
+Theorem find_uri_first_unescaped : forall def retrieve val ts,
+  wf def retrieve val ts -> find_uri def (flatten ts) = option_map ref_text (first_ref ts).
+Proof. exact find_uri_wf. Qed.
+Print Assumptions find_uri_first_unescaped.
+
+(* ================= clause 5: termination, cycles, '$' in names ================= *)
+
+(* the model is a total function with an explicit bound of 1000 rounds; a value that changes in
+   every round — in particular every reference cycle — is refused *)
+Theorem unbounded_expansion_refused : forall def retrieve (P : cv -> Prop),
+  (forall v, P v -> exists v', expand_value def retrieve v = Ok (v', true) /\ P v') ->
+  forall fuel v, P v -> expand_rec def retrieve fuel v = Err [ETooMany].
+Proof. exact expand_rec_diverges. Qed.
+Print Assumptions unbounded_expansion_refused.
+
+Theorem self_cycle_rejected : forall def retrieve n ret,
+  name_ok n = true -> ref_ok def n = true ->
+  expand_uri def retrieve (ref_text n) = Ok ret ->
+  r_raw ret = CStr (ref_text n) -> as_string ret = Some (ref_text n) ->
+  resolve_string def retrieve (ref_text n) = Err [ETooMany].
+Proof. exact Proofs2.self_cycle_rejected. Qed.
+Print Assumptions self_cycle_rejected.
+
+Theorem resolve_terminates : forall def retrieve srcs,
+  (exists v, resolve def retrieve srcs = Ok v) \/ (exists e, resolve def retrieve srcs = Err e).
+Proof. exact resolve_total_l. Qed.
+Print Assumptions resolve_terminates.
+
+Theorem dollar_in_name_rejected : forall def retrieve sch opq,
+  valid_scheme sch = true -> has_char cDollar opq = true ->
+  expand_uri def retrieve (ref_text (sch ++ cColon :: opq)) = Err [EDollarInName].
+Proof. exact dollar_in_name_l. Qed.
+Print Assumptions dollar_in_name_rejected.
+
+Theorem dollar_in_name_rejected_in_string : forall def retrieve s sch opq,
+  find_uri def s = Some (ref_text (sch ++ cColon :: opq)) ->
+  valid_scheme sch = true -> has_char cDollar opq = true ->
+  resolve_string def retrieve s = Err [EDollarInName].
+Proof. exact dollar_in_name_string_l. Qed.
+Print Assumptions dollar_in_name_rejected_in_string.
+
+Theorem any_reference_error_is_reported : forall def retrieve s uri e,
+  find_uri def s = Some uri -> expand_uri def retrieve uri = Err e ->
+  resolve_string def retrieve s = Err e.
+Proof. exact uri_error_refused. Qed.
+Print Assumptions any_reference_error_is_reported.
